@@ -3,9 +3,11 @@
 set -e
 cd "$(dirname "$0")"
 export CARGO_NET_OFFLINE=true
+export CARGO_TARGET_DIR="$(pwd)/.cache/target"
+REPO="${VERIF_REPO:-$(cd .. && pwd)/repo}"
 mkdir -p .cache
 if [ -d extract ]; then (cd extract && cargo build --release --quiet 2>&1 | tail -5) ; fi
-if [ -x .cache/target/release/tvextract ]; then .cache/target/release/tvextract /repo lean/TaffyVerif/Generated || true; fi
+if [ -x .cache/target/release/tvextract ]; then .cache/target/release/tvextract "$REPO" lean/TaffyVerif/Generated || true; fi
 (cd lean && lake build TaffyVerif tvdriver 2>&1 | tail -15)
 (cd harness && cargo build --release --quiet 2>&1 | tail -5)
 echo "setup done"
